@@ -264,7 +264,7 @@ func ParseArgs() *Args {
 	flag.Uint64Var(&a.Seed, "seed", 1, "PRNG seed")
 	flag.StringVar(&a.Out, "out", "", "output directory")
 	flag.StringVar(&a.Replay, "replay", "", "replay file (op lines)")
-	flag.StringVar(&a.Scratch, "scratch", "/verif/.build/scratch/default", "scratch directory")
+	flag.StringVar(&a.Scratch, "scratch", os.TempDir()+"/xv-scratch", "scratch directory")
 	flag.Parse()
 	if a.Out == "" {
 		Die("need -out")
